@@ -25,5 +25,27 @@ def run(ctx):
         ctx.coverage["distinct_nontrivial"] = agg.tot.get("fossil", 0)
         ctx.coverage["rule"] = ("GenModel runs with short GVT periods, half of them stopped by a termination time; non-trivial = fossil collection "
                                 "instants at which the released entries were checked to continue the sequential per-LP sequence (c03=ok)")
+    # runs ended by RootsimStop() called from a handler at an arbitrary point (LP 0, after k of its events): whatever has been committed
+    # by then must be a prefix of the sequential per-LP sequences; final states are speculative (not compared)
+    import concurrent.futures
+    import random
+    if runlib.build(ctx):
+        rnd = random.Random(ctx.seed * 311 + 7)
+        cfgs = []
+        for c in runlib.gen_configs(ctx, 12 if ctx.tier == "quick" else 300, threads=(1, 2, 3, 4), fossil_heavy=True):
+            c.update({"seed": rnd.randrange(1, 1 << 30), "mseed": rnd.randrange(1, 1 << 30), "stopat": rnd.choice([3, 20, 60, 150, 400]), "batch": rnd.choice([2, 4, 8]), "period": 0,
+                      "tterm": 1 << 40, "thr": rnd.choice([150, 300]), "spread": rnd.choice([0, 10, 30])})
+            cfgs.append(c)
+        sagg = runlib.Agg()
+        with concurrent.futures.ThreadPoolExecutor(max_workers=12) as ex:
+            for r in ex.map(lambda ic: runlib.run_one(ctx, "par", ic[1], "st%d" % ic[0]), enumerate(cfgs)):
+                sagg.add(r)
+        keep = dict(ctx.coverage)
+        runlib.standard_verdicts(ctx, sagg, "committed stream of runs ended by RootsimStop()", ("s_below_gvt",))
+        stop_cov = {"runs": sagg.runs, "outcomes": sagg.outcomes, "fossil_collections": sagg.tot.get("fossil", 0),
+                    "trace_lines": sagg.lines, "known_F1_hangs": sagg.f1}
+        ctx.coverage.clear()
+        ctx.coverage.update(keep)
+        ctx.coverage["rootsim_stop_runs"] = stop_cov
     # refinement of the concrete kernel to the abstract global Time Warp machine of the glue theorems, checked on small runs
     runlib.tw_matrix(ctx, 12, 400, salt=3)
